@@ -84,6 +84,10 @@ func (o *hOrigin) ServeHTTP(w http.ResponseWriter, r *http.Request) {
 	}
 	rs := sc.resps[idx]
 	h := w.Header()
+	if rs.Early103 {
+		h.Set("Link", "</style.css>; rel=preload")
+		w.WriteHeader(103)
+	}
 	for _, kv := range rs.Headers {
 		h.Add(kv[0], kv[1])
 	}
@@ -120,13 +124,14 @@ func (r *recBuf) snap() (in, out []byte) {
 
 // one exchange as seen on the wire, protocol independent
 type wireEx struct {
-	ReqFields  [][2]string
-	HasBody    bool     // h2: HEADERS without END_STREAM; h3: at least one DATA frame
-	ReqChunks  [][]byte // non-empty DATA frame payloads
-	FinLast    bool     // h2: the last DATA frame with payload carried END_STREAM
-	Aborted    bool     // the client never ended the request stream (upload abandoned)
-	RespFields [][2]string
-	RespData   []byte
+	ReqFields   [][2]string
+	HasBody     bool          // h2: HEADERS without END_STREAM; h3: at least one DATA frame
+	ReqChunks   [][]byte      // non-empty DATA frame payloads
+	FinLast     bool          // h2: the last DATA frame with payload carried END_STREAM
+	Aborted     bool          // the client never ended the request stream (upload abandoned)
+	RespFields  [][2]string   // the final response header block
+	RespInterim [][][2]string // 1xx blocks before it, in order
+	RespData    []byte
 }
 
 // ----- h2 -----
@@ -244,6 +249,9 @@ func parseH2Dir(b []byte, fromClient bool, streams map[uint32]*h2Stream, order *
 					s.HasBody = !f.StreamEnded()
 				}
 			} else if s.RespFields == nil || strings.HasPrefix(statusOf(s.RespFields), "1") {
+				if s.RespFields != nil {
+					s.RespInterim = append(s.RespInterim, s.RespFields)
+				}
 				s.RespFields = fs
 			}
 		case *http2.DataFrame:
@@ -376,7 +384,7 @@ func (o *h3Origin) take() []*recBuf {
 }
 
 // parseH3Dir: frames of one direction of a request stream
-func parseH3Dir(b []byte) (fields [][2]string, chunks [][]byte) {
+func parseH3Dir(b []byte) (fields [][2]string, chunks [][]byte, interim [][][2]string) {
 	r := bytes.NewReader(b)
 	for {
 		t, err := quicvarint.Read(r)
@@ -410,6 +418,9 @@ func parseH3Dir(b []byte) (fields [][2]string, chunks [][]byte) {
 				fs = append(fs, [2]string{hf.Name, hf.Value})
 			}
 			if fields == nil || strings.HasPrefix(statusOf(fields), "1") {
+				if fields != nil {
+					interim = append(interim, fields)
+				}
 				fields = fs
 			}
 		}
@@ -421,10 +432,10 @@ func parseH3(recs []*recBuf) []wireEx {
 	for _, rec := range recs {
 		in, o := rec.snap()
 		var w wireEx
-		w.ReqFields, w.ReqChunks = parseH3Dir(in)
+		w.ReqFields, w.ReqChunks, _ = parseH3Dir(in)
 		w.HasBody = len(w.ReqChunks) > 0
 		var data [][]byte
-		w.RespFields, data = parseH3Dir(o)
+		w.RespFields, data, w.RespInterim = parseH3Dir(o)
 		w.RespData = bytes.Join(data, nil)
 		if w.ReqFields != nil {
 			out = append(out, w)
@@ -439,8 +450,11 @@ func genExchange23(rng *hk.Rand) exSpec {
 	for {
 		ex := genExchange(rng)
 		ok := !ex.Expect
-		for _, rs := range ex.Resps {
-			if len(rs.Interim) > 0 || rs.EarlyFinal || rs.Truncate > 0 {
+		for k, rs := range ex.Resps {
+			if len(rs.Interim) > 0 { // 103 Early Hints: sent by the handler as an informational HEADERS block
+				ex.Resps[k].Interim, ex.Resps[k].Early103 = nil, true
+			}
+			if rs.EarlyFinal || rs.Truncate > 0 {
 				ok = false
 			}
 		}
@@ -491,7 +505,10 @@ func h23PartsOf(w wireEx, rs respSpec, method string, finalBody []byte, isFinal 
 		p.NoResp = true
 		return p
 	}
-	p.RespHeader = fieldLines(w.RespFields)
+	for _, blk := range w.RespInterim {
+		p.RespHeader = append(p.RespHeader, fieldLines(blk)...)
+	}
+	p.RespHeader = append(p.RespHeader, fieldLines(w.RespFields)...)
 	if isFinal {
 		p.RespBody = finalBody
 		p.RespEOF = finalErr == ""
@@ -631,7 +648,11 @@ func pairs23(r *hk.Run, rng *hk.Rand, count int, st stack) {
 			if st.ctor == "X2" {
 				fin = " " + hk.CoqBool(w.FinLast) + " " + hk.CoqBool(w.Aborted)
 			}
-			coqX = append(coqX, fmt.Sprintf("%s %s %s%s %s %s", st.ctor, coqFields(w.ReqFields, pl), coqChunks(w.HasBody, w.ReqChunks, pl), fin, coqFields(w.RespFields, pl), coqReads(xs[k], pl)))
+			var ib []string
+			for _, blk := range w.RespInterim {
+				ib = append(ib, coqFields(blk, pl))
+			}
+			coqX = append(coqX, fmt.Sprintf("%s %s %s%s %s %s %s", st.ctor, coqFields(w.ReqFields, pl), coqChunks(w.HasBody, w.ReqChunks, pl), fin, hk.CoqList(ib), coqFields(w.RespFields, pl), coqReads(xs[k], pl)))
 		}
 		want := expectedContents(cfg, xs)
 		if which, g, w, ok := compareContents(on.Sink, want); !ok {
